@@ -333,7 +333,22 @@ func (h *Hist) genVal(target *Node, trees bool) (any, MVal) {
 			return c.Impl, mRef(c)
 		}
 	case k == 3 && trees && h.room():
+		if len(h.recentTrees) > 0 && h.d.Draw("tree-again", 3) == 0 {
+			// the very same Go map or slice as in an earlier call (sometimes modified in place between two operations): every conversion is a
+			// copy of what the value holds now, two conversions of one value give two independent containers
+			t := h.recentTrees[h.d.Draw("tree-which", len(h.recentTrees))]
+			h.counters["probe:same-go-value-passed-again"]++
+			return t, h.modelOfNative(t, h.curOp)
+		}
 		t := genNativeTree(h.d, 2, 3)
+		switch t.(type) {
+		case map[string]any, []any:
+			if len(h.recentTrees) < 6 {
+				h.recentTrees = append(h.recentTrees, t)
+			} else {
+				h.recentTrees[h.d.Draw("tree-slot", 6)] = t
+			}
+		}
 		return t, h.modelOfNative(t, h.curOp)
 	}
 	m := h.genScalarM()
@@ -1278,6 +1293,18 @@ func opTimePasses(h *Hist) {
 	h.tracef("%v pass", d)
 	simrt.Sleep(d)
 	h.counters["probe:time-passes"]++
+	if len(h.recentTrees) > 0 && h.d.Draw("tree-touch", 3) == 0 {
+		// the caller goes on using a Go value it passed to the library earlier (no container may notice: C13)
+		switch x := h.recentTrees[h.d.Draw("tree-which", len(h.recentTrees))].(type) {
+		case map[string]any:
+			x["touched"] = len(x)
+		case []any:
+			if len(x) > 0 {
+				x[0] = "touched"
+			}
+		}
+		h.counters["probe:go-value-modified-after-use"]++
+	}
 	if h.d.Draw("collect-garbage", 4) == 0 {
 		// two collections empty every sync.Pool (primary and victim cache) and make unreachable containers eligible for
 		// finalizers; what the library recycles must not be something a live container still uses
